@@ -156,6 +156,10 @@ func Worker(e Engine, tier string, seed uint64, shard, of int, runs uint64, know
 				continue
 			}
 			seenSig[v.Sig] = true
+			if strings.HasPrefix(v.Sig, "infra:") {
+				out.Found = append(out.Found, Found{Sig: v.Sig, Detail: v.Detail, Run: i, Plan: PlanJSON(plan), Unmin: PlanJSON(plan)})
+				continue
+			}
 			unmin := PlanJSON(plan)
 			fresh := func(prelude []json.RawMessage, pl json.RawMessage) bool {
 				return childReproduces(m, outPath, seed, i, v.Sig, prelude, pl)
@@ -435,6 +439,16 @@ func Check(e Engine, o CheckOpts) int {
 			continue
 		}
 		seen[f.Sig] = true
+		if strings.HasPrefix(f.Sig, "infra:") {
+			infra = true
+			fmt.Fprintf(os.Stderr, "INFRA: %s (run %d): %s\n", f.Sig, f.Run, f.Detail)
+			continue
+		}
+		if f.Unconfirmed {
+			infra = true
+			fmt.Fprintf(os.Stderr, "INFRA: violation %q (run %d) was seen in a worker but reproduces neither alone nor after the worker's earlier runs in a fresh process: %s\n", f.Sig, f.Run, f.Detail)
+			continue
+		}
 		violations++
 		_ = os.MkdirAll(o.ReplayDir, 0o755)
 		name := fmt.Sprintf("%s-%016x", m.Property, Hash64(f.Sig))
@@ -452,6 +466,7 @@ func Check(e Engine, o CheckOpts) int {
 		if !confirmed {
 			// A violation that does not replay in a fresh process is a harness defect, not a finding.
 			infra = true
+			violations--
 			fmt.Fprintf(os.Stderr, "INFRA: violation %q (run %d) did not reproduce in a fresh process:\n%s\n", f.Sig, f.Run, string(outb))
 			continue
 		}
